@@ -190,7 +190,8 @@ func (e *Enc) applyContract(f *frame, con *Contract, display string, args []Val,
 		e.assume(g)
 	}
 	old := e.cur.clone()
-	// havoc
+	// havoc (the locations named in modifies are resolved in the pre-state)
+	env.st = old
 	if con.ModAll {
 		e.havocAll("modifies * of " + display)
 	} else {
@@ -526,6 +527,11 @@ func (e *Enc) appendBuiltin(f *frame, c *ssa.CallCommon, args []Val, pos token.P
 	oldA := e.def("appold", sel(m, s.Arr))
 	inPlace := e.freshT("appA", SArr)
 	realloc := e.freshT("appB", SArr)
+	e.noteSplit(fits)
+	// inPlace equals the old array when the append does not fit, so that the
+	// new memory needs no ite over arrays:
+	//   M' = store(store(M, s.arr, inPlace), fresh, realloc)
+	// (the fresh array id is unreachable when the append was done in place)
 	if k, isC := constInt(n); isC && k <= 16 {
 		// explicit stores: quantifier-free
 		a1 := oldA
@@ -534,18 +540,18 @@ func (e *Enc) appendBuiltin(f *frame, c *ssa.CallCommon, args []Val, pos token.P
 			a1 = store(a1, add(add(s.Off, s.Len), bv64(i)), sel(srcA, add(t.Off, bv64(i))))
 			cs = append(cs, eq(sel(realloc, add(s.Len, bv64(i))), sel(srcA, add(t.Off, bv64(i)))))
 		}
-		e.assume(eq(inPlace, a1))
+		e.assume(eq(inPlace, ite(fits, a1, oldA)))
 		e.assume(and(cs...))
 		e.assume(T{fmt.Sprintf("(forall ((j (_ BitVec 64))) (! (=> (bvult j %s) (= (select %s j) (select %s (bvadd %s j)))) :pattern ((select %s j))))",
 			s.Len.S, realloc.S, oldA.S, s.Off.S, realloc.S), SBool})
 	} else {
 		base := e.def("appbase", add(s.Off, s.Len))
-		e.assume(T{fmt.Sprintf("(forall ((j (_ BitVec 64))) (! (= (select %s j) (ite (bvult (bvsub j %s) %s) (select %s (bvadd %s (bvsub j %s))) (select %s j))) :pattern ((select %s j))))",
-			inPlace.S, base.S, n.S, srcA.S, t.Off.S, base.S, oldA.S, inPlace.S), SBool})
+		e.assume(T{fmt.Sprintf("(forall ((j (_ BitVec 64))) (! (= (select %s j) (ite (and %s (bvult (bvsub j %s) %s)) (select %s (bvadd %s (bvsub j %s))) (select %s j))) :pattern ((select %s j))))",
+			inPlace.S, fits.S, base.S, n.S, srcA.S, t.Off.S, base.S, oldA.S, inPlace.S), SBool})
 		e.assume(T{fmt.Sprintf("(forall ((j (_ BitVec 64))) (! (=> (bvult j %s) (= (select %s j) (ite (bvult j %s) (select %s (bvadd %s j)) (select %s (bvadd %s (bvsub j %s)))))) :pattern ((select %s j))))",
 			newLen.S, realloc.S, s.Len.S, oldA.S, s.Off.S, srcA.S, t.Off.S, s.Len.S, realloc.S), SBool})
 	}
-	e.setVar("M|byte", ite(fits, store(m, s.Arr, inPlace), store(m, fresh, realloc)))
+	e.setVar("M|byte", store(store(m, s.Arr, inPlace), fresh, realloc))
 	return e.nameVal(Sl{Arr: ite(fits, s.Arr, fresh), Off: ite(fits, s.Off, bv64(0)), Len: newLen, Cap: ite(fits, s.Cap, newCap), Elem: s.Elem}, "app")
 }
 
@@ -672,39 +678,47 @@ func (e *Enc) hasPrefix(s Str, p string) T {
 func (e *Enc) seqEq(a, b Sl) T { return e.seqEq2(e.cur, a, e.cur, b) }
 
 func (e *Enc) seqEq2(sa *State, a Sl, sb *State, b Sl) T {
-	ma := e.def("sqa", sel(e.byteMem(sa), a.Arr))
-	mb := e.def("sqb", sel(e.byteMem(sb), b.Arr))
-	e.recordSeq(ma, a)
-	e.recordSeq(mb, b)
-	e.nfresh++
-	q := fmt.Sprintf("k!%d", e.nfresh)
-	return and(eq(a.Len, b.Len), T{fmt.Sprintf("(forall ((%s (_ BitVec 64))) (=> (bvult %s %s) (= (select %s (bvadd %s %s)) (select %s (bvadd %s %s)))))",
-		q, q, a.Len.S, ma.S, a.Off.S, q, mb.S, b.Off.S, q), SBool})
+	e.usesSeq = true
+	ma := e.constFor("sqa", sel(e.byteMem(sa), a.Arr))
+	mb := e.constFor("sqb", sel(e.byteMem(sb), b.Arr))
+	e.recordSeqPair(seqTerm{arr: ma, s: a}, seqTerm{arr: mb, s: b})
+	return T{fmt.Sprintf("(= %s %s)", seqID(ma, a), seqID(mb, b)), SBool}
+}
+
+func seqID(arr T, s Sl) string {
+	return fmt.Sprintf("(seqid %s %s %s)", arr.S, s.Off.S, s.Len.S)
 }
 
 type seqTerm struct {
 	arr T // array contents term
 	s   Sl
-	at  int // line index when recorded
 }
 
-func (e *Enc) recordSeq(arr T, s Sl) {
-	if e.dry > 0 {
+type seqPair struct {
+	a, b seqTerm
+	at   int // line index when recorded
+}
+
+// recordSeqPair remembers that two byte sequences were compared; the query
+// builder adds the extensionality instance for the pair:
+//   seqid(a) = seqid(b)  <=>  same length and same bytes
+func (e *Enc) recordSeqPair(a, b seqTerm) {
+	if e.loopDry > 0 {
 		return
 	}
-	e.seqRecs = append(e.seqRecs, seqTerm{arr, s, len(e.lines)})
+	e.seqPairs = append(e.seqPairs, seqPair{a, b, len(e.lines)})
 }
 
 // bytesCompare returns a BV64 in {-1,0,1}; the order is the total order lexLE
 // on abstract sequence ids (DESIGN 4.2), equality is extensional.
 func (e *Enc) bytesCompare(a, b Sl) T {
 	e.usesSeq = true
-	ma := e.def("cma", sel(e.byteMem(e.cur), a.Arr))
-	mb := e.def("cmb", sel(e.byteMem(e.cur), b.Arr))
-	e.recordSeq(ma, a)
-	e.recordSeq(mb, b)
-	ia := T{fmt.Sprintf("(seqid %s %s %s)", ma.S, a.Off.S, a.Len.S), "Seq"}
-	ib := T{fmt.Sprintf("(seqid %s %s %s)", mb.S, b.Off.S, b.Len.S), "Seq"}
+	e.usesLex = true
+	ma := e.constFor("cma", sel(e.byteMem(e.cur), a.Arr))
+	mb := e.constFor("cmb", sel(e.byteMem(e.cur), b.Arr))
+	e.recordSeqPair(seqTerm{arr: ma, s: a}, seqTerm{arr: mb, s: b})
+	ia := T{seqID(ma, a), "BSeq"}
+	ib := T{seqID(mb, b), "BSeq"}
 	r := e.freshT("cmp", SBV64)
 	one := bv64(1)
 	minus := bv64(^uint64(0))
